@@ -183,3 +183,25 @@ Definition raw_request (r : request_head) (content : option bytes) (trailers : b
               | OtherError => OtherError
               end
   end.
+
+(* ---- histories of exports of one flow: every exporter works on cleanup_request(f), a private copy, so the flow the
+   next export sees is the flow the first one saw.  The state is threaded explicitly so that this is a statement. ---- *)
+Record flowst := mkFlow {
+  fl_x : xreq; fl_head : request_head; fl_content : option bytes; fl_trailers : bytes }.
+Inductive fmt := FCurl | FHttpie | FRaw.
+Inductive eout := OX (o : xres bytes) | OR (o : res bytes).
+
+Definition export_step (v : variant) (preserve : bool) (addr : option bytes) (s : flowst) (f : fmt) : eout * flowst :=
+  (match f with
+   | FCurl => OX (curl_command v preserve addr (fl_x s))
+   | FHttpie => OX (httpie_command v (fl_x s))
+   | FRaw => OR (raw_request (fl_head s) (fl_content s) (fl_trailers s))
+   end, s).
+
+Fixpoint export_history (v : variant) (preserve : bool) (addr : option bytes) (s : flowst) (fs : list fmt)
+  : list eout * flowst :=
+  match fs with
+  | [] => ([], s)
+  | f :: r => let (o, s1) := export_step v preserve addr s f in
+              let (os, s2) := export_history v preserve addr s1 r in (o :: os, s2)
+  end.
